@@ -48,6 +48,10 @@ func TestVerif_C03(t *testing.T) {
 	s1.NumSlots, s1.Gsfa = 40, true
 	s3 := vfxDefaultSpec("c03s3", 3, seed+2)
 	s3.NumSlots, s3.Gsfa = 40, true
+	// the two small epochs get seeds (derived from the run's seed) for which their CAR files have objects at the same
+	// offset with the same section length: the concurrent part fetches such objects across epochs
+	s1, s3, steered := vc03SteerSeeds(s1, s3, 24)
+	rep.CountN("small epochs: CAR positions (offset, section length) shared by construction", steered)
 	mf := vfxDefaultSpec("c03mf", 4, seed+3) // a third of the transactions span several frames (no address index: its builder refuses split transaction data)
 	mf.NumSlots, mf.SkipPercent, mf.MaxEntries, mf.MaxTx, mf.FrameSize, mf.FanOut = 900, 10, 1, 3, 70, 3
 	truths, err := vfxBuild([]vfxSpec{big, s1, s3, mf})
@@ -61,6 +65,11 @@ func TestVerif_C03(t *testing.T) {
 	}
 	trBig := truths[0]
 	ctx := context.Background()
+	pairs := &vc03Pairs{} // colliding (absent, stored) keys found below with one epoch loaded; replayed concurrently at the end
+	objAt := map[uint64]cid.Cid{}
+	for _, o := range trBig.Objects {
+		objAt[o.Offset] = vfxCidFromHex(o.Cid)
+	}
 	// ---- absent signatures against the epoch with multi-frame transactions: the key confirmation must not depend on
 	// how many frames the stored transaction has
 	{
@@ -160,6 +169,9 @@ func TestVerif_C03(t *testing.T) {
 				rep.Fail("block-of-another-slot", fmt.Sprintf("%s: Epoch.GetBlock(%d) returned the block of slot %d", tag, s, blk.Slot),
 					map[string]interface{}{"spec": trBig.Spec, "asked_slot": s, "got_slot": blk.Slot})
 			}
+			if loaded == 1 && present[decodedSlot] != nil {
+				pairs.Slots = append(pairs.Slots, vc03SlotPair{Absent: s, Stored: decodedSlot})
+			}
 			if loaded == 1 || collSlots <= 40 {
 				cases.Add(fmt.Sprintf("CBlock %d%%N %d%%N %s", s, decodedSlot, vc03Obs(gerr, answered)))
 			}
@@ -219,6 +231,9 @@ func TestVerif_C03(t *testing.T) {
 					}
 				}
 			}
+			if loaded == 1 && decSig != (solana.Signature{}) {
+				pairs.Sigs = append(pairs.Sigs, vc03SigPair{Absent: sig, Stored: decSig})
+			}
 			txn, _, gerr := ep.GetTransaction(ctx, sig)
 			answered := gerr == nil
 			if answered {
@@ -256,6 +271,9 @@ func TestVerif_C03(t *testing.T) {
 			}
 			collCids++
 			rep.Case(fmt.Sprintf("%s/cid/%s", tag, c), true)
+			if stored, ok := objAt[oas.Offset]; ok && loaded == 1 {
+				pairs.Cids = append(pairs.Cids, vc03CidPair{Absent: c, Stored: stored})
+			}
 			raw, gerr := ep.GetNodeByCid(ctx, c)
 			if gerr == nil {
 				rep.Fail("bytes-of-another-cid", fmt.Sprintf("%s: GetNodeByCid(%s) returned %d bytes stored at offset %d under another CID", tag, c, len(raw), oas.Offset),
@@ -380,6 +398,8 @@ func TestVerif_C03(t *testing.T) {
 			e.Close()
 		}
 	}
+	// ---- the colliding pairs again, absent and stored key requested concurrently (c03conc_test.go)
+	vc03Concurrent(rep, cases, truths, pairs, seed)
 	_ = cid.Undef
 	rep.Sample(map[string]interface{}{"epoch_blocks": len(trBig.Blocks), "spec": trBig.Spec})
 	if err := cases.Write(); err != nil {
